@@ -501,9 +501,49 @@ pub fn check(ctx: &Ctx, p: &Prog) {
                 ctx.violation(format!("macro/{}/differs-from-reference", feat), format!("code {} vs reference {}", fw::hex(&a.code, 48), fw::hex(&r.code, 48)), replay(json!({"expect_code": fw::hex(&r.code, 4096)})));
             } else {
                 ctx.count("valid_programs_compared", 1);
+                across_files(ctx, p, a, &feat);
             }
         }
         _ => {}
+    }
+}
+
+/// A run of top-level lines (whole definitions, whole calls) moved into an included file: calls and
+/// definitions then meet across file boundaries in every order - a call in the included file whose
+/// definition only follows in the including file, definitions in the included file, both.
+fn across_files(ctx: &Ctx, p: &Prog, whole: &fw::BuildResult, feat: &str) {
+    let n = p.nodes.len();
+    if n < 3 {
+        return;
+    }
+    let mut rng = Rng::for_case(fw::hash_str(&ir::print_canonical(&p.nodes)), 0xC09_F, 0);
+    let a = rng.usize(n - 1);
+    let b = a + 1 + rng.usize(n - a - 1);
+    let part = ir::print_canonical(&p.nodes[a..b]);
+    if part.to_lowercase().contains(".exit") {
+        return;
+    }
+    let main = format!("{}.include \"part.inc\"\n{}", ir::print_canonical(&p.nodes[..a]), ir::print_canonical(&p.nodes[b..]));
+    let out = fw::build_main_with_part(&main, &part);
+    ctx.eval(1);
+    let has_call = |ns: &[Node]| ns.iter().any(|x| matches!(x, Node::MacroCall { .. }));
+    let has_def = |ns: &[Node]| ns.iter().any(|x| matches!(x, Node::MacroDef { .. }));
+    let shape = match (has_call(&p.nodes[a..b]), has_def(&p.nodes[a..b]), has_def(&p.nodes[b..])) {
+        (true, _, true) => "calls-in-included-file-definitions-follow-in-includer",
+        (true, true, false) => "calls-and-definitions-in-included-file",
+        (true, false, false) => "calls-in-included-file",
+        (false, true, _) => "definitions-in-included-file",
+        _ => "other-lines-in-included-file",
+    };
+    ctx.count(&format!("across_files/{}", shape), 1);
+    match &out {
+        Outcome::Err(e) if e.starts_with("HARNESS:") => ctx.inconclusive(e.clone()),
+        Outcome::Ok(o) if (&o.code, &o.eeprom, o.ram_filling) == (&whole.code, &whole.eeprom, whole.ram_filling) => {}
+        _ => ctx.violation(
+            format!("macro/{}/across-files/{}", feat, shape),
+            format!("top-level lines {}..{} moved into an included file: {} instead of the result of the one-file program", a, b, fw::clip(&format!("{:?}", out.brief()), 160)),
+            json!({"source": ir::print_canonical(&p.nodes), "main": main, "part": part, "observed": out.brief()}),
+        ),
     }
 }
 
@@ -562,6 +602,22 @@ fn probes(ctx: &Ctx) {
         ("omitted/in-message", ".macro say\n\tldi r16, @0\n\tldi r17, @1\n.endm\n\tsay 1\n"),
         ("omitted/register-operand", ".macro mv\n\tmov @0, @1\n.endm\n\tmv r1\n"),
         ("omitted/all-arguments", ".macro two\n\tldi @0, @1\n.endm\n\ttwo\n"),
+        // places where a line would still read well if the parameter simply vanished
+        ("omitted/only-operand-of-db", ".macro put\n\t.db @1\n.endm\n\tput 1\n\tnop\n"),
+        ("omitted/only-operand-of-dw", ".macro put\n\t.dw @2\n.endm\n\tput 1, 2\n\tnop\n"),
+        ("omitted/only-operand-of-dd-in-eseg", ".macro put\n\t.dd @1\n.endm\n.eseg\n\tput 1\n.cseg\n\tnop\n"),
+        ("omitted/last-operand-of-db", ".macro put\n\t.db @0, @1\n.endm\n\tput 1\n\tnop\n"),
+        ("omitted/pasted-into-label", ".macro lab\nl_@0@1:\n\tnop\n.endm\n\tlab a\n"),
+        ("omitted/pasted-into-symbol", ".macro sym\n.equ s_@0@1 = 1\n\tnop\n.endm\n\tsym a\n"),
+        ("omitted/only-argument-of-inner-call", ".macro inner\n\tnop\n.endm\n.macro outer\n\tinner @1\n.endm\n\touter 1\n"),
+        ("omitted/optional-operand-lpm", ".macro load\n\tlpm @1\n.endm\n\tload 1\n"),
+        ("omitted/optional-operand-elpm", ".macro load\n\telpm @2\n.endm\n\tload r0, Z\n"),
+        ("omitted/optional-operand-spm", ".macro store\n\tspm @1\n.endm\n\tstore 1\n"),
+        ("omitted/after-operator", ".macro add1\n\tldi r16, 1 @1\n.endm\n\tadd1 2\n"),
+        ("omitted/inside-parentheses", ".macro par\n\tldi r16, (@1) + 1\n.endm\n\tpar 2\n"),
+        ("omitted/second-line-only", ".macro two_lines\n\tldi r16, @0\n\t.dw @1\n.endm\n\ttwo_lines 1\n"),
+        ("omitted/in-message-text-operand", ".macro say\n.message @1\n\tnop\n.endm\n\tsay 1\n"),
+        ("omitted/parameter-nine", ".macro nine\n\t.db @9\n.endm\n\tnine 0, 1, 2, 3, 4, 5, 6, 7, 8\n"),
         ("undefined/called-from-a-body", ".macro outer\n\tnop\n\tnever_defined_macro 1\n.endm\n\touter\n"),
         ("undefined/called-in-dseg", ".dseg\n\tnever_defined_macro 2\n.cseg\n\tnop\n"),
         ("undefined/called-in-eseg", ".eseg\n\tnever_defined_macro\n.cseg\n\tnop\n"),
@@ -677,7 +733,7 @@ pub fn run(ctx: &Ctx) -> i32 {
     });
     fw::finish(
         ctx,
-        "programs with 1-4 macro definitions (0-10 parameters; bodies of ldi/mov/ld/st/ldd/std/out with register, index and displacement parameters, .dw/.db on parameters incl. inside larger expressions, .if on a parameter, nested calls passing parameters on, .dseg/.eseg switches returning to .cseg, lines differing only in the letter case of a string or character literal, emit-once blocks (.ifndef F / #define F / ... / .else) and #define flags set by one macro and tested by another; names in mixed case, .endm/.endmacro) and 1-6 calls in any letter case, before or after the definition, (1 in 3 repeated verbatim, directly or after another call) with registers, all nine index forms, Y/Z displacements and random expressions of every precedence as arguments; 1 in 6 programs calls an undefined macro or omits a used argument (must fail); fixed probes for the argument shapes the statement names; plus bodies that place things (.org as first, middle or last body line with origin and contents as parameters, in all three segments, also nested, the caller going on behind the call with labels referenced across calls; calls written under .dseg and .eseg) compared with the program written out; distinct_nontrivial = distinct program texts",
+        "programs with 1-4 macro definitions (0-10 parameters; bodies of ldi/mov/ld/st/ldd/std/out with register, index and displacement parameters, .dw/.db on parameters incl. inside larger expressions, .if on a parameter, nested calls passing parameters on, .dseg/.eseg switches returning to .cseg, lines differing only in the letter case of a string or character literal, emit-once blocks (.ifndef F / #define F / ... / .else) and #define flags set by one macro and tested by another; names in mixed case, .endm/.endmacro) and 1-6 calls in any letter case, before or after the definition, (1 in 3 repeated verbatim, directly or after another call) with registers, all nine index forms, Y/Z displacements and random expressions of every precedence as arguments; 1 in 6 programs calls an undefined macro or omits a used argument (must fail); fixed probes for the argument shapes the statement names; plus bodies that place things (.org as first, middle or last body line with origin and contents as parameters, in all three segments, also nested, the caller going on behind the call with labels referenced across calls; calls written under .dseg and .eseg) compared with the program written out; every valid program once more with a random run of its top-level lines moved into an included file (calls before their definition across the file boundary, definitions in the included file) built through build_file; distinct_nontrivial = distinct program texts",
         &[
             "hand expansion is done on the IR (refmodel/layout.rs::expand_macros): an argument is substituted as a value (parenthesised when it lands inside a larger expression)",
             "a parameter used inside a larger expression is only called with atomic, parenthesised or function-call arguments; labels and messages inside bodies are not generated",
@@ -691,7 +747,16 @@ pub fn replay(ctx: &Ctx, case: &Value) -> i32 {
     ctx.eval(1);
     ctx.distinct(1);
     ctx.distinct(2);
-    if let Some(hand) = case["hand_expanded"].as_str() {
+    if let (Some(main), Some(part)) = (case["main"].as_str(), case["part"].as_str()) {
+        let b = fw::build_main_with_part(main, part);
+        let same = match (&a, &b) {
+            (Outcome::Ok(x), Outcome::Ok(y)) => x.code == y.code && x.eeprom == y.eeprom && x.ram_filling == y.ram_filling,
+            _ => false,
+        };
+        if !same {
+            ctx.violation("macro/replay", "the program split over two files still differs from the one-file program", case.clone());
+        }
+    } else if let Some(hand) = case["hand_expanded"].as_str() {
         let b = fw::build_str(hand);
         let same = match (&a, &b) {
             (Outcome::Ok(x), Outcome::Ok(y)) => x.code == y.code && x.eeprom == y.eeprom && x.ram_filling == y.ram_filling,
